@@ -1,6 +1,7 @@
 import Tibc.World
 import Tibc.LC.Tendermint
 import Tibc.LC.Status
+import Tibc.Commitment.Verify
 /-
   Line-protocol driver: reads one operation per line on stdin, runs the model, prints one
   canonical outcome line per operation. Core Lean only.
@@ -391,6 +392,33 @@ def stepLine (st : St) (line : String) : St × String :=
       let r := if kind == "tm" then LCStatus.tm t pd now else LCStatus.eth t pd now
       (st, "res=" ++ (match r with | .active => "Active" | .expired => "Expired" | .unknown => "Unknown"))
     | _, _ => bad
+  | ["tmverify", latest, h, root, pt, delay, now, ptok, path, value] =>
+    match latest.toNat?, h.toNat?, delay.toNat?, now.toNat? with
+    | some latest, some h, some delay, some now =>
+      let π : Option Verify.TmProof :=
+        match ptok.splitOn "|" with
+        | ["nil"] => some .nil
+        | ["undecodable"] => some .undecodable
+        | ["foreign"] => some .foreign
+        | ["genuine", k, v] => some (.genuine k (if v == "none" then none else some v))
+        | _ => none
+      match π with
+      | some π =>
+        let ctx : Verify.TmCtx := { latest := latest, consRoot := if root == "-" then none else some root,
+                                    processed := if pt == "-" then none else pt.toNat?, delay := delay, now := now }
+        (st, if Verify.tmVerify ctx h π path value then "res=ok" else "res=fail")
+      | none => bad
+    | _, _, _, _ => bad
+  | ["ethverify", kind, latest, ce, h, delayBlock, decodes, addrOk, acctOk, fieldsOk, nStorage, keyIsSlot, storOk, word, claimed] =>
+    match latest.toNat?, h.toNat?, delayBlock.toNat?, nStorage.toNat? with
+    | some latest, some h, some db, some ns =>
+      let π : Verify.EthProof := { decodes := decodes == "1", addrOk := addrOk == "1", acctProofOk := acctOk == "1",
+                                   acctFieldsOk := fieldsOk == "1", nStorage := ns, keyIsSlot := keyIsSlot == "1",
+                                   storProofOk := storOk == "1", word := if word == "-" then none else some word }
+      let ctx : Verify.EthCtx := { latest := latest, consExists := ce == "1", delayBlock := db }
+      let r := if kind == "bsc" then Verify.bscVerify ctx h π claimed else Verify.ethVerify ctx h π claimed
+      (st, if r then "res=ok" else "res=fail")
+    | _, _, _, _ => bad
   | ["auth", c, sh, dh, ph] =>
     match unhex sh, unhex dh, unhex ph with
     | some sc, some d, some pt =>
